@@ -299,7 +299,7 @@ def run_check(prop, tier, seed):
         json.dump(ev, f, indent=1, sort_keys=True)
     out(f'{prop} {tier} seed={seed}: evaluations={acc.evals} distinct_nontrivial={len(acc.nontriv)} '
         f'violations={nviol} known_hits={sum(acc.known.values())} wall={wall:.1f}s')
-    if acc.evals == 0 or len(acc.nontriv) < 2:
+    if rc == 0 and (acc.evals == 0 or len(acc.nontriv) < 2):          # a run that found violations is not vacuous
         out('HARNESS-ERROR: vacuous run (no non-trivial cases)')
         return 2
     return rc
